@@ -182,3 +182,34 @@ Definition spec_step (m : list (bytes * bytes)) (a : act) : list (bytes * bytes)
   | ADel k => sm_del k m
   | _ => m
   end.
+
+(* ---------- table file names (sst.TableWriter) ----------
+   The model identifies a table with its content; change sets remove tables by value, and the proofs DERIVE from layout
+   validity that distinct tables of a layout differ as values (C18_Compact.level_unique, C07_Refine.mem_not_rem).  On the
+   implementation side a table is a file NNNNNN.sst: TableWriter.Write reserves the number atomically (id.Add(1) - 1)
+   before it writes anything, and the flush task and the compaction task share the writer.  [writes_of] = the number of
+   tables a background half-step writes, [run_names] = the file numbers handed out along a history with the counter
+   threaded through; Props/C07.table_file_names_unique: they are pairwise different for every interleaving.  The
+   correspondence check observes the same on the storage.FileSystem the DB is given (code 19). *)
+Fixpoint tw_names (ctr : N) (k : nat) : list N :=
+  match k with O => [] | S k' => ctr :: tw_names (ctr + 1) k' end.
+
+Definition writes_of (cfg : dbcfg) (st : db) (a : act) : nat :=
+  match a with
+  | AF1 => match ft st, fpend st with FIdle, S _ => length (removelast (mts st)) | _, _ => O end
+  | AC1 | AC1F =>
+      match fst (compact table_size (d_comp cfg) (mcl st) (lv st)) with Some cs => length (cs_add cs) | None => O end
+  | _ => O
+  end.
+
+Fixpoint run_names (cfg : dbcfg) (st : db) (ctr : N) (acts : list act) : list N :=
+  match acts with
+  | [] => []
+  | a :: r =>
+      match step cfg st a with
+      | None => []
+      | Some (st', _) =>
+          let k := writes_of cfg st a in
+          tw_names ctr k ++ run_names cfg st' (ctr + N.of_nat k) r
+      end
+  end.
